@@ -136,6 +136,23 @@ struct Tally {
     per: BTreeMap<(String, String), [u64; 4]>,
     frames: u64,
     rows: u64,
+    /// per main transition constraint: number of mutated frames on which it evaluated to non-zero
+    fired: Vec<u64>,
+    /// frames with an altered operand (current-row stack cell): liveness tally only
+    operand_frames: u64,
+}
+
+impl Tally {
+    fn note_fired(&mut self, evaluations: &[Felt]) {
+        if self.fired.len() < evaluations.len() {
+            self.fired.resize(evaluations.len(), 0);
+        }
+        for (k, v) in evaluations.iter().enumerate() {
+            if *v != Felt::ZERO {
+                self.fired[k] += 1;
+            }
+        }
+    }
 }
 
 /// context of a row pair that the specification's case distinctions need
@@ -486,6 +503,7 @@ fn sweep(ctx: &Ctx, case: &ProgCase, challenges: &[Q], tally: &Mutex<Tally>, dum
                 }
                 me.iter_mut().for_each(|v| *v = Felt::ZERO);
                 air.evaluate_transition(&mf, &pv, &mut me);
+                local.note_fired(&me);
                 let mut rejected = me.iter().any(|v| *v != Felt::ZERO);
                 if !rejected && matches!(c, Cell::RangeM | Cell::RangeV) {
                     ae.iter_mut().for_each(|v| *v = Q::ZERO);
@@ -500,6 +518,7 @@ fn sweep(ctx: &Ctx, case: &ProgCase, challenges: &[Q], tally: &Mutex<Tally>, dum
                     let pv2 = airx::periodic_at(&periodic, i + 1);
                     me.iter_mut().for_each(|v| *v = Felt::ZERO);
                     air.evaluate_transition(&mf2, &pv2, &mut me);
+                    local.note_fired(&me);
                     rejected = me.iter().any(|v| *v != Felt::ZERO);
                     if !rejected && matches!(c, Cell::RangeM | Cell::RangeV) {
                         aux.read_row_into(i + 1, af2.current_mut());
@@ -537,11 +556,36 @@ fn sweep(ctx: &Ctx, case: &ProgCase, challenges: &[Q], tally: &Mutex<Tally>, dum
                 mf.current_mut()[col] = old;
             }
         }
+        // liveness only (not judged): the operands of the operation, i.e. the CURRENT row's stack cells.
+        // Conditions on operands (ASSERT: s0 = 1; NOT / AND / OR / CSWAP / SPLIT / LOOP: binary; ...) can
+        // only fire when an operand is altered; whether an accepted operand change is legitimate depends on
+        // the operation (DROP accepts anything), so these frames feed the per-constraint tally alone
+        if i < cycles {
+            for j in 0..16 {
+                let old = cur[S0 + j];
+                let neighbour = cur[S0 + (j + 1) % 16];
+                for d in deltas(old, neighbour) {
+                    mf.current_mut()[S0 + j] = d;
+                    me.iter_mut().for_each(|v| *v = Felt::ZERO);
+                    air.evaluate_transition(&mf, &pv, &mut me);
+                    local.note_fired(&me);
+                    local.operand_frames += 1;
+                }
+                mf.current_mut()[S0 + j] = old;
+            }
+        }
     }
     hasher_cycle_deviations(ctx, case, &air, main, &periodic, n, &mut local, &cj, dump);
     let mut t = tally.lock().unwrap();
     t.frames += local.frames;
     t.rows += local.rows;
+    t.operand_frames += local.operand_frames;
+    if t.fired.len() < local.fired.len() {
+        t.fired.resize(local.fired.len(), 0);
+    }
+    for (k, v) in local.fired.iter().enumerate() {
+        t.fired[k] += v;
+    }
     for (k, v) in local.per {
         let e = t.per.entry(k).or_insert([0; 4]);
         for j in 0..4 {
@@ -630,6 +674,7 @@ fn hasher_cycle_deviations(
                     let pv = airx::periodic_at(periodic, r - 1 + k);
                     me.iter_mut().for_each(|v| *v = Felt::ZERO);
                     air.evaluate_transition(&f, &pv, &mut me);
+                    local.note_fired(&me);
                     if me.iter().any(|v| *v != Felt::ZERO) {
                         rejected = true;
                         break;
@@ -661,7 +706,7 @@ fn hasher_cycle_deviations(
 /// exactly 16 (empty overflow table) and 17 (one overflow row)
 fn bare_ops() -> Vec<ProgCase> {
     let ops = [
-        "add", "mul", "neg", "inv", "not", "and", "or", "eq", "eq.0", "add.1", "swap", "drop", "dup", "dup.7", "dup.15", "push.0", "push.7",
+        "add", "mul", "neg", "inv", "not", "and", "or", "eq", "eq.0", "add.1", "swap", "drop", "dup", "dup.1", "dup.2", "dup.3", "dup.4", "dup.5", "dup.6", "dup.7", "dup.9", "dup.11", "dup.13", "dup.15", "push.0", "push.7",
         "movup.2", "movup.3", "movup.4", "movup.5", "movup.6", "movup.7", "movup.8", "movdn.2", "movdn.3", "movdn.4", "movdn.5", "movdn.6",
         "movdn.7", "movdn.8", "swapw", "swapw.2", "swapw.3", "swapdw", "cswap", "cswapw", "assert", "u32split", "u32overflowing_add",
         "u32overflowing_sub", "u32overflowing_mul", "u32divmod", "u32overflowing_add3", "u32overflowing_madd", "u32assert2", "sdepth", "clk",
@@ -730,6 +775,22 @@ pub fn run(ctx: &Ctx, replay: Option<&Value>) -> i32 {
             }
         }
     }
+    // vacuity: a transition constraint that no enumerated deviation ever makes non-zero is either never
+    // exercised by the family or can never fire at all (e.g. gated by a product of flags that is zero on
+    // every row, the shape of F-C04-h); on the unchanged tree every constraint fires
+    let never_fired: Vec<usize> = t.fired.iter().enumerate().filter(|(_, n)| **n == 0).map(|(k, _)| k).collect();
+    if replay.is_none() && !dump {
+        for k in &never_fired {
+            ctx.fail(
+                json!({"kind": "transition_constraint_never_fires", "constraint": k}),
+                format!("main transition constraint #{k} evaluated to zero on every one of the {} mutated frames of the whole family", t.frames + t.operand_frames),
+                json!({"kind": "never_fires", "constraint": k}),
+            );
+        }
+    }
+    let mut least_fired: Vec<(usize, u64)> = t.fired.iter().cloned().enumerate().collect();
+    least_fired.sort_by_key(|x| x.1);
+    least_fired.truncate(12);
     let pairs_rejected = t.per.values().filter(|v| v[1] > 0).count();
     let pairs_free_only = t.per.values().filter(|v| v[1] == 0 && v[2] > 0).count();
     let table: BTreeMap<String, Value> = t.per.iter().map(|((op, cell), v)| (format!("{op} {cell}"), json!({"mutations": v[0], "rejected": v[1], "spec_free": v[2], "violations": v[3]}))).collect();
@@ -745,6 +806,11 @@ pub fn run(ctx: &Ctx, replay: Option<&Value>) -> i32 {
         "(op, cell) pairs with a rejected mutation": pairs_rejected,
         "(op, cell) pairs only ever spec_free": pairs_free_only,
         "per (op, cell)": table,
+        "operand-altering frames (liveness tally only)": t.operand_frames,
+        "main transition constraints": t.fired.len(),
+        "main transition constraints that fired on at least one mutated frame": t.fired.iter().filter(|n| **n > 0).count(),
+        "main transition constraints that never fired": never_fired,
+        "least often fired constraints (index, frames)": least_fired,
         "exhaustive": true,
         "bounds": "every row pair i < n-2 of every trace of the family x candidate cells x 8 deltas, one cell at a time (deviation bound 1)",
     });
